@@ -190,6 +190,9 @@ func propC10(ch core.Chooser, st *core.Stats) error {
 	opts := cfg.Options(env.FS)
 	bgSync, bgCompact := ch.Int("bg_sync_ms", 0, 3), ch.Int("bg_compact_ms", 0, 3)
 	opts.BackgroundSyncInterval = time.Duration(bgSync) * time.Millisecond
+	if bgSync == 0 && core.Pct(ch, "syncwrites", 40) {
+		opts.BackgroundSyncInterval = -1 // sync after every write
+	}
 	opts.BackgroundCompactionInterval = time.Duration(bgCompact) * time.Millisecond
 	var db *pogreb.DB
 	if err := core.Safe(func() error { var e error; db, e = pogreb.Open(env.Dir, opts); return e }); err != nil {
@@ -306,6 +309,9 @@ func propC10(ch core.Chooser, st *core.Stats) error {
 	}
 	aux(compacts, 3, "Compact", func(i int) error { _, e := db.Compact(); return e })
 	aux(syncs, 3, "Sync", func(i int) error { return db.Sync() })
+	if syncs > 0 && core.Pct(ch, "second_syncer", 50) {
+		aux(syncs, 3, "Sync", func(i int) error { return db.Sync() }) // two callers of Sync at once
+	}
 	aux(sizes, 3, "FileSize", func(i int) error { _, e := db.FileSize(); _ = db.Metrics(); return e })
 	aux(backups, 3, "Backup", func(i int) error {
 		bdir := fmt.Sprintf("%s-bak%d", env.Dir, i)
